@@ -1,6 +1,7 @@
 from registry_common import COMMON_ASSUME
 
 ENTRY = dict(
+    prop_modules=["C06", "C06Lifetime", "C06Probe"],
     title="No write request ever carries a value outside the controller-reported range",
     design_ref="DESIGN.md section 6 / C06",
     technique=("Lean 4 model of the front of Parameter.set (normalisation after the subclass's display->raw conversion in the exact binary64 model, "
@@ -18,9 +19,15 @@ ENTRY = dict(
         "`refused_inert`, `accepted`, `tx_in_range`, `empty_range_refuses_all`, `held_value_noop`, `holds` (model satisfies C06.spec). "
         "All for every conversion (every table row), every triple incl. degenerate ones, every Python value. Tie: every description x "
         "triples x boundary requests through the real set(), and histories of real report frames / set calls / retries under virtual time "
-        "compared step by step with the machine; C06.spec judged by the Lean driver against the LAST REPORTED triple."),
+        "compared step by step with the machine; C06.spec judged by the Lean driver against the LAST REPORTED triple. "
+        "LIFETIME with OVERLAPPING accepted calls (machine SetL, Props/C06Lifetime): `tx_checked_at_own_call` (in any history every set request of a "
+        "call carries that call's value, which lay within the bounds held when the call was made), `refused_call_never_transmits`, "
+        "`sync_first_attempt_at_call` (executor synchronous: the first attempt is queued in the step of the call), `bounds_move_only_by_reports`, "
+        "`unmoved_bounds_in_range` (no report since the call => every attempt within the last reported bounds: an out-of-bounds transmission needs a "
+        "report handled while THAT call ran = the input class of F7), `judge_never_blames_the_machine` (the harness judge C06L.judge answers "
+        "`violation` only for a transmission the check-once machine cannot make in that step)."),
     level_note=("Trusted: Lean kernel; binary64 model = CPython (validated exhaustively by C17's check); machine <-> helpers/parameter.py and the "
-                "Number subclasses is differential. Two concurrent set calls on one parameter are outside the machine."),
+                "Number subclasses is differential. Two concurrent ACCEPTED set calls are outside the report/set machine `stepM` and inside the lifetime machine `SetL` (C06Lifetime)."),
     clauses={
         "raw encoding below min / above max of the LAST report => ValueError": "theorem (`checked_against_last_report`, `reject_iff`), for requests that differ from the held value",
         "refused => nothing transmitted, held value unchanged": "theorem (`reject_inert`, `refused_inert`)",
@@ -30,12 +37,14 @@ ENTRY = dict(
         "a report always replaces the triple (also while pending / same value / other bounds)": "theorem (`report_always_replaces`) + correspondence (histories through real frames)",
         "raw encoding of a requested value": "C17's conversion model (exact binary64), correspondence-validated",
         "a refused / no-op second set while a call is in flight is inert": "theorem (`rejected_set_inert_while_pending`) + correspondence; an ACCEPTED overlapping call is outside this machine (C08)",
+        "overlapping ACCEPTED calls x reports moving the bounds: every transmission within the bounds held at ITS call's check; outside the last reported bounds only as F7": "theorem (`tx_checked_at_own_call`, `unmoved_bounds_in_range`, `sync_first_attempt_at_call`) + correspondence (harness/c06life.py: 2..4 sequential / overlapping calls x narrowing, widening, shifting reports x timers x executor held on 9 parameters, judged by C06L.judge: F7 only where the check-once machine SetL transmits the same request in the same step)",
+        "front of set() / normalisation / confirmation rule of EVERY parameter class = the model, on a complete small grid": "table (Generated/ParamProbe.lean: the translator PROBES the real classes Number, Switch, Ecomax*, Mixer*, Thermostat*, Schedule* — request builders stubbed, everything else the class's own — on class x description (unit, 0.5/offset 2, 0.1/offset 20) x triples incl. min=max, min>max, value outside its bounds x 32 requested values; bounds admitting everything for the normalisation; pending / not pending x reported value x reported bounds for update()) + theorem (`validate_table_agrees`, `rawOf_table_agrees`, `confirm_table_agrees`, `confirm_table_agrees_setm`, `probe_classes_complete`, kernel-evaluated): a subclass overriding the check, the conversion or the confirmation rule breaks a named lemma",
         "model = implementation": "correspondence (every table row x triples x boundary requests; histories with reports between attempts, refused overlapping calls)",
         "the bounds in force are those reported for THAT sub-device": "correspondence (devices populated by ONE response for 2..5 mixers / 2..3 thermostats with disjoint ranges per sub-device; on every sub-device its own bounds +-1 and every other sub-device's bounds are requested, through every public set route, and judged by C06.spec against the triple reported for that sub-device; in half of the configurations a client callback subscribed to the first parameter of every sub-device raises while the controller re-reports other bounds)",
     },
     assumptions=COMMON_ASSUME + [
         "requested values are finite (no NaN/inf) and 'on'/'off' are the only strings",
-        "at most one ACCEPTED set call in flight per parameter (refused / no-op overlapping calls are modelled)",
+        "report/set machine `stepM`: at most one ACCEPTED set call in flight (refused / no-op overlapping calls are modelled); overlapping accepted calls: lifetime machine `SetL`",
     ],
     timeout={"quick": 600, "thorough": 1800},
 )
